@@ -1108,6 +1108,7 @@ func c12AllSteps() []c12StepID {
 }
 
 func c12Run(c *core.Ctx) {
+	c12bRun(c) // part 2: path spellings (c12b.go)
 	e := c12NewEnv(c)
 	defer e.cleanup()
 	steps := c12AllSteps()
@@ -1264,6 +1265,9 @@ func c12Say(line string) {
 }
 
 func c12Replay(c *core.Ctx, raw json.RawMessage) {
+	if c12bReplay(c, raw) {
+		return
+	}
 	var cs c12Case
 	if err := json.Unmarshal(raw, &cs); err != nil {
 		panic(err)
